@@ -356,6 +356,36 @@ func (ct *CaseTaint) Sinks(fn *ssa.Function) []CaseSink {
 					if k := letteredKey(ct.P, g, customOnly[x.Call.Args[1]]); k != "" {
 						out = append(out, CaseSink{fn, in, k, "membership in " + g.Name() + " (keys like " + k + ")", raw[x.Call.Args[1]]})
 					}
+				} else if prm, ok := x.Call.Args[0].(*ssa.Parameter); ok {
+					// a set received as a parameter: the package-level sets the callers pass
+					for i, fp := range fn.Params {
+						if fp != prm {
+							continue
+						}
+						for _, caller := range ct.P.ModFuncs {
+							done := false
+							Instrs(caller, func(ci ssa.Instruction) {
+								cc, ok := ci.(ssa.CallInstruction)
+								if !ok || done || cc.Common().StaticCallee() != fn || i >= len(cc.Common().Args) {
+									return
+								}
+								if g := globalOf(cc.Common().Args[i]); g != nil {
+									k := letteredKey(ct.P, g, customOnly[x.Call.Args[1]])
+									if k == "" && g.Pkg != nil && Rel(g.Pkg.Pkg.Path()) == "css/validation" && !customOnly[x.Call.Args[1]] {
+										// a keyword set of the validators filled in init(): its keys are CSS keywords
+										k = "keywords of " + g.Name()
+									}
+									if k != "" {
+										out = append(out, CaseSink{fn, in, k, "membership in " + g.Name() + " passed by " + caller.Name() + " (keys like " + k + ")", raw[x.Call.Args[1]]})
+										done = true
+									}
+								}
+							})
+							if done {
+								break
+							}
+						}
+					}
 				}
 			}
 		case *ssa.Lookup:
